@@ -922,6 +922,12 @@ class Assembler:
                     sub = f.read().split("\n")
                 self._expand_lines(sub, p)
                 i += 1
+            elif cmd == "use":
+                pth = os.path.join(os.path.dirname(self.vxdir), "units", "inc", parts[1])
+                with open(pth) as f:
+                    sub = f.read().split("\n")
+                self._expand_lines(sub, pth)
+                i += 1
             elif cmd == "struct":
                 self.do_struct(parts[1:])
                 i += 1
